@@ -32,6 +32,34 @@ type Doc struct {
 	DeletedAt gorm.DeletedAt
 }
 
+// Owner / Pet: has-many association (selected-association delete, Preload).
+type Owner struct {
+	ID   uint `gorm:"primaryKey"`
+	Name string
+	Pets []Pet
+}
+type Pet struct {
+	ID      uint `gorm:"primaryKey"`
+	OwnerID uint
+	Name    string
+}
+
+// Note: its AfterCreate hook runs a statement through the tx it is handed.
+type Note struct {
+	ID   uint `gorm:"primaryKey"`
+	Body string
+}
+type Audit struct {
+	ID  uint `gorm:"primaryKey"`
+	Msg string
+}
+
+func (n *Note) AfterCreate(tx *gorm.DB) error {
+	return tx.Exec("INSERT INTO audits (msg) VALUES (?)", n.Body).Error
+}
+
+var oldTime = time.Date(2020, 1, 2, 3, 4, 5, 0, time.UTC)
+
 var fixedNow = time.Date(2024, 5, 6, 7, 8, 9, 0, time.UTC)
 
 // XOp is an operation on Doc (outside the C01 grammar).
@@ -86,6 +114,43 @@ func xFin(db *gorm.DB, x XOp) *gorm.DB {
 		return db.Create(&Doc{Title: x.Title})
 	case "update":
 		return db.Model(&Doc{}).Where("id = ?", x.ID).Update("title", x.Title)
+	case "hook_create": // AfterCreate runs INSERT INTO audits on the tx it gets
+		return db.Create(&Note{Body: x.Title})
+	case "assoc_delete":
+		return db.Select("Pets").Delete(&Owner{ID: uint(x.ID)})
+	case "assoc_delete_all":
+		return db.Select(clause.Associations).Delete(&Owner{ID: uint(x.ID)})
+	case "preload_keyed": // the destination already has its key: Preload can build its query without the main result
+		o := Owner{ID: uint(x.ID)}
+		return db.Preload("Pets").Find(&o)
+	case "begin_create", "begin_update":
+		tx := db.Begin()
+		var res *gorm.DB
+		if x.K == "begin_create" {
+			res = tx.Create(&Doc{Title: x.Title})
+		} else {
+			res = tx.Model(&Doc{}).Where("id = ?", x.ID).Update("title", x.Title)
+		}
+		tx.Rollback()
+		return res
+	case "row", "raw_row_returning":
+		tx := db.Model(&Doc{}).Select("title").Where("id = ?", x.ID)
+		if x.K == "raw_row_returning" {
+			tx = db.Raw("UPDATE docs SET title = ? WHERE id = ? RETURNING id", x.Title, x.ID)
+		}
+		if row := tx.Row(); row != nil {
+			var v interface{}
+			row.Scan(&v)
+		}
+		return tx.Session(&gorm.Session{})
+	case "scan":
+		var d []Doc
+		return db.Model(&Doc{}).Where("title <> ?", x.Title).Scan(&d)
+	case "save_slice_preset": // tracked time already set on the records: Save must bind the clock, not the old value
+		docs := []Doc{{ID: uint(x.ID), Title: x.Title, UpdatedAt: oldTime}, {ID: 950, Title: x.Title + "n", UpdatedAt: oldTime}}
+		return db.Save(&docs)
+	case "save_struct_preset":
+		return db.Save(&Doc{ID: uint(x.ID), Title: x.Title, UpdatedAt: oldTime})
 	case "update_nocond": // no condition at all: ErrMissingWhereClause, nothing may be sent
 		return db.Model(&Doc{}).Update("title", x.Title)
 	case "updates_nocond":
@@ -185,7 +250,7 @@ func openEnv() env {
 		return db
 	}
 	e := env{real: mk(false), dryCfg: mk(true), rec: rec, sqlDB: sqlDB}
-	lib.Must(e.real.AutoMigrate(&cgen.Item{}, &Doc{}))
+	lib.Must(e.real.AutoMigrate(&cgen.Item{}, &Doc{}, &Owner{}, &Pet{}, &Note{}, &Audit{}))
 	e.reseed()
 	return e
 }
@@ -193,7 +258,9 @@ func openEnv() env {
 // reseed restores the data both runs start from (through database/sql directly).
 func (e env) reseed() {
 	for _, q := range []string{
-		"DELETE FROM items", "DELETE FROM docs",
+		"DELETE FROM items", "DELETE FROM docs", "DELETE FROM owners", "DELETE FROM pets", "DELETE FROM notes", "DELETE FROM audits",
+		"INSERT INTO owners (id, name) VALUES (1,'o1'),(2,'o2')",
+		"INSERT INTO pets (id, owner_id, name) VALUES (1,1,'p1'),(2,1,'p2'),(3,2,'p3')",
 		"INSERT INTO items (id, name, code, age, active, data, note) VALUES (1,'ann','c1',20,1,x'6431','n1'),(2,'bob','c2',31,0,x'6432',NULL),(3,'cid','c1',44,1,NULL,NULL)",
 		"INSERT INTO docs (id, title, updated_at, deleted_at) VALUES (1,'t1','2024-01-01 00:00:00',NULL),(2,'t2','2024-01-01 00:00:00',NULL),(3,'t3','2024-01-01 00:00:00','2024-02-02 00:00:00')",
 	} {
@@ -271,6 +338,24 @@ func classify(in Input) (kind, fin string, ret bool) {
 			return "OpCreate", fin, true
 		case "batch_create", "batchsize_create":
 			return "OpCreate", "FBatch", true
+		case "hook_create":
+			return "OpCreate", "(FNested 0 1)", true
+		case "assoc_delete", "assoc_delete_all":
+			return "OpDelete", "(FNested 1 0)", false
+		case "preload_keyed":
+			return "OpQuery", "(FNested 0 1)", false
+		case "begin_create":
+			return "OpCreate", "FManualTx", true
+		case "begin_update":
+			return "OpUpdate", "FManualTx", false
+		case "row", "raw_row_returning":
+			return "OpRow", "FRow", false
+		case "scan":
+			return "OpRow", "FRows", false
+		case "save_slice_preset":
+			return "OpCreate", fin, true
+		case "save_struct_preset":
+			return "OpUpdate", "FSave", false
 		case "update", "carry_update", "update_nocond", "updates_nocond", "update_column_nocond":
 			return "OpUpdate", fin, false
 		case "update_returning":
@@ -440,12 +525,14 @@ func main() {
 	}
 	xops := []string{"create", "update", "delete", "unscoped_delete", "find", "first", "rows", "save_existing", "save_missing", "save_new",
 		"update_returning", "delete_returning", "unscoped_delete_returning", "carry_find", "carry_first", "carry_count", "carry_update",
-		"batch_create", "batchsize_create", "update_nocond", "updates_nocond", "update_column_nocond", "delete_nocond", "unscoped_delete_nocond"}
+		"batch_create", "batchsize_create", "update_nocond", "updates_nocond", "update_column_nocond", "delete_nocond", "unscoped_delete_nocond",
+		"hook_create", "assoc_delete", "assoc_delete_all", "preload_keyed", "begin_create", "begin_update", "row", "raw_row_returning", "scan",
+		"save_slice_preset", "save_struct_preset"}
 	n := 0
 	for i := 0; i < budget; i++ {
 		in := Input{Mode: lib.Pick(r, []string{"config", "session", "tosql"}), Skip: r.Chance(1, 3)}
 		kind := "main"
-		if r.Chance(1, 3) {
+		if r.Chance(2, 5) {
 			n++
 			k := xops[n%len(xops)]
 			id := int64(r.Range(1, 2))
@@ -454,6 +541,9 @@ func main() {
 				id = int64(r.Range(900, 999))
 			case "save_new":
 				id = 0
+			}
+			if strings.HasPrefix(k, "begin_") && in.Mode == "tosql" {
+				in.Mode = lib.Pick(r, []string{"config", "session"}) // an explicit Begin is a driver call of the caller's own
 			}
 			in.X = &XOp{K: k, ID: id, Title: fmt.Sprintf("t'%d\"?;--", r.Intn(1000))}
 			kind = "edge"
@@ -472,6 +562,6 @@ func main() {
 		}
 		add(kind, in)
 	}
-	out.Extra["rule"] = "cases = operation x DryRun mode {Config.DryRun, Session{DryRun}, ToSQL} x SkipDefaultTransaction {false,true}; operation = a C01 chain+finisher on Item (Find/First/Take/Last/Count/Pluck, Update/Updates, Delete, Create from struct/slice/map/[]map incl. OnConflict, Exec, Raw+Scan) or an operation on Doc (soft delete, tracked update time, pinned NowFunc): Create, Update, soft Delete, Unscoped Delete, Find, First, Rows, Save of an existing / missing / new record, Update / soft Delete / Unscoped Delete with clause.Returning{}, Update / Updates / UpdateColumn / Delete without any condition (refused with ErrMissingWhereClause; also a sixth of the C01 update/delete chains lose their conditions), Find / First / Count / Update finishing a handle that already carries Model+Where+Order when DryRun or ToSQL is switched on (also a third of the C01 chains), CreateInBatches and Create with CreateBatchSize over more rows than the batch size; both runs start from the same re-seeded tables on identical SQLite handles behind the recording driver; statements SQLite rejects are kept (the real run then rolls back); distinct = distinct (mode, skip, operation skeleton); non-trivial = the real run sends at least one statement and the dry run exposes at least one bound value"
+	out.Extra["rule"] = "cases = operation x DryRun mode {Config.DryRun, Session{DryRun}, ToSQL} x SkipDefaultTransaction {false,true}; operation = a C01 chain+finisher on Item (Find/First/Take/Last/Count/Pluck, Update/Updates, Delete, Create from struct/slice/map/[]map incl. OnConflict, Exec, Raw+Scan) or an operation on Doc (soft delete, tracked update time, pinned NowFunc): Create, Update, soft Delete, Unscoped Delete, Find, First, Rows, Save of an existing / missing / new record, Update / soft Delete / Unscoped Delete with clause.Returning{}, Update / Updates / UpdateColumn / Delete without any condition (refused with ErrMissingWhereClause; also a sixth of the C01 update/delete chains lose their conditions), Find / First / Count / Update finishing a handle that already carries Model+Where+Order when DryRun or ToSQL is switched on (also a third of the C01 chains), statements derived through Session{NewDB} (an AfterCreate hook running Exec on its tx, Delete with Select(Pets) / Select(clause.Associations), Preload on a destination that already has its key), an operation inside Begin()...Rollback() on a dry handle, Row() on a chain and on Raw UPDATE ... RETURNING, Scan on a chain, Save of a slice / of a struct whose tracked update time is already set (pinned clock; every bound value compared), CreateInBatches and Create with CreateBatchSize over more rows than the batch size; both runs start from the same re-seeded tables on identical SQLite handles behind the recording driver; statements SQLite rejects are kept (the real run then rolls back); distinct = distinct (mode, skip, operation skeleton); non-trivial = the real run sends at least one statement and the dry run exposes at least one bound value"
 	lib.Must(out.Flush())
 }
